@@ -92,6 +92,8 @@ class Run:
             summ = []
             for i, c in enumerate(cases):
                 l = impl[i] if impl is not None and i < len(impl) else ""
+                if l.endswith(" ||") or l == "||":
+                    l += " "
                 a, _, b = l.partition(" || ")
                 summ.append(a.strip())
                 traces.append(b.strip())
